@@ -28,8 +28,12 @@ def build(flavour, harnesses):
     return time.time() - t
 
 
+def _tag():
+    return '' if REPO == '/repo' else '-' + hashlib.md5(REPO.encode()).hexdigest()[:8]
+
+
 def binpath(flavour, name):
-    return os.path.join(V, 'build', flavour, 'bin', name)
+    return os.path.join(V, 'build', flavour + _tag(), 'bin', name)
 
 
 def crash_signature(stderr, rc):
@@ -191,7 +195,7 @@ class Check:
                     for k, v in s.get('counters', {}).items():
                         self.counters[k] = self.counters.get(k, 0) + v
                 for v in viol:
-                    v['harness'], v['flavour'], v['args'] = harness, flavour, args
+                    v['harness'], v['flavour'], v['args'] = harness, flavour, args + list(v.get('args', []))
                     self.raw.append(v)
         if fam['evaluated'] < total:
             self.exhaustive = False
@@ -240,7 +244,8 @@ class Check:
     # ---------------------------------------------------------------- verdict
     def finish(self, rule, assumptions, extra_cov=None, nontrivial=None):
         kf_all = json.load(open(os.path.join(V, 'known_findings.json')))
-        kf_open = [k for k in kf_all if k.get('status') == 'open' and k.get('property') == self.prop]
+        # C15's Logger-coherence checker runs inside every harness; its open findings apply wherever its signatures surface
+        kf_open = [k for k in kf_all if k.get('status') == 'open' and (k.get('property') == self.prop or k.get('property') == 'C15')]
         # group raw violations by signature
         by_sig = {}
         for v in self.raw:
@@ -250,6 +255,8 @@ class Check:
         new, known_seen, harness_errors = [], {}, []
 
         def matches(k, v):
+            if k.get('property') != self.prop and not v['sig'].startswith('C15:'):
+                return False
             if 'sig_regex' in k and not re.search(k['sig_regex'], v['sig']):
                 return False
             if 'family_regex' in k and not re.search(k['family_regex'], v['family']):
